@@ -328,6 +328,8 @@ def run_c14(pid, spec, res, st, tier, seed, helpers):
     forced = [0x80, 0xe9, 0x100, 0xfff, 0x1000, 0xffff, 0x10000, 0xfffff, 0x100000, 0x10ffff]
     for i, c in enumerate(cs):
         c['id'] = i
+        # the Python setters take an i32: larger thresholds are outside the binding's domain (OverflowError from pyo3)
+        c['mr'] = min(c.get('mr', 1), 2 ** 31 - 1); c['ms'] = min(c.get('ms', 1), 2 ** 31 - 1)
         if rnd.random() < 0.5:
             fl = flags_of(c)
             if 'e' not in fl and 'E' not in fl:
@@ -422,6 +424,16 @@ def run_c17(pid, spec, res, st, tier, seed, helpers):
             target = rnd.randint(0, 6)
             val = rnd.choice([0, 1, 1, 2, 3]) if name.startswith('withMinimum') else rnd.randint(0, 1)
             calls.append([name, (target << 8) | val])
+        if rnd.random() < 0.3:
+            # "last call wins" sequences on ONE object: escaping(true) then escaping(false); thresholds 3 then 2
+            t = rnd.randint(0, 2)
+            seqs = [[['withEscapingOfNonAsciiChars', (t << 8) | 1], ['withEscapingOfNonAsciiChars', (t << 8) | 0]],
+                    [['withConversionOfRepetitions', t << 8], ['withMinimumRepetitions', (t << 8) | 3], ['withMinimumRepetitions', (t << 8) | 2]],
+                    [['withConversionOfRepetitions', t << 8], ['withMinimumSubstringLength', (t << 8) | 3], ['withMinimumSubstringLength', (t << 8) | 1]]]
+            pos = rnd.randint(0, len(calls))
+            calls[pos:pos] = rnd.choice(seqs)
+            if items and items[0] is not None and rnd.random() < 0.7:
+                items[0] = items[0] + [0x1f4a9]
         c['items'] = items; c['calls'] = calls
         lines.append(json.dumps({'id': i, 'items': items, 'calls': calls}))
     validate_setter_translation(res)
